@@ -3513,6 +3513,28 @@ class SFTPClientFile:
                     data = await _SFTPFileReader(
                         self.read_len, self._max_requests, self._handler,
                         self._handle, offset, size).run()
+                elif read_to_end:
+                    # Without a block size, each read is a single request,
+                    # which may return less than what was asked for. Keep
+                    # asking for the rest until the end of the file.
+                    blocks: List[bytes] = []
+                    pos = offset
+
+                    try:
+                        while size > 0:
+                            block, _ = await self._handler.read(self._handle,
+                                                                pos, size)
+
+                            if not block:
+                                break
+
+                            blocks.append(block)
+                            pos += len(block)
+                            size -= len(block)
+                    except SFTPEOFError:
+                        pass
+
+                    data = b''.join(blocks)
                 else:
                     data, _ = await self._handler.read(self._handle,
                                                        offset, size)
@@ -6926,6 +6948,7 @@ class SFTPServerHandler(SFTPHandler):
 
         if src and dst:
             read_to_end = read_from_length == 0
+            copy_to_end = read_to_end
 
             if read_to_end:
                 # Copy up to where the source ends now. When the data is
@@ -6961,6 +6984,11 @@ class SFTPServerHandler(SFTPHandler):
                 # A read may return less than what was asked for before
                 # the end of the file, so only stop when nothing is left
                 if not data:
+                    # When asked to copy a given number of bytes, report
+                    # that the source ended before that
+                    if not read_to_end and not copy_to_end:
+                        raise SFTPEOFError
+
                     break
 
                 await self._write_all(dst, write_to_offset, data)
